@@ -127,7 +127,8 @@ def fake_results(panics: bool, sim, em, rt, run_seed, n_qubits, n_shots, offset,
                 return out
             bits.append(("c", h[2] & 1))
         else:
-            bits = [("b", h[j] & 1) for j in range(6)]
+            # numerically equal values of different types under one tag (int / float / bool)
+            bits = [("b", (int, float, bool)[j % 3](h[j] & 1)) for j in range(6)]
         out.append((bits, None))
     return out
 
@@ -202,6 +203,17 @@ def observe(h) -> dict:
             "seed": h.seed, "verbose": h.verbose, "timeout": h.timeout,
             "sim": spec_of(h.simulator), "runtime": spec_of(h.runtime),
             "error_model": spec_of(h.error_model)}
+
+
+def typed(x):
+    """Type-sensitive form of a result structure (1, 1.0 and True compare equal)."""
+    if isinstance(x, list | tuple):
+        return [typed(e) for e in x]
+    if isinstance(x, dict):
+        return {k: typed(v) for k, v in x.items()}
+    if isinstance(x, bool | int | float):
+        return f"{type(x).__name__}:{x!r}"
+    return x
 
 
 def run_handle(h):
@@ -506,13 +518,13 @@ def run_case(ch: Choices, params: dict) -> dict:
                     probes["seeded_runs_compared"] += 1
                     want = reference_run(inst, rec, real, panics)
                     log.add("run", names[i], hashlib.sha256(repr(got).encode()).hexdigest()[:10])
-                    if got != want:
+                    if typed(got) != typed(want):
                         violation("NOT_REPRODUCIBLE", {"against": "reference"},
                                   {f"{names[i]}.run()": want}, {f"{names[i]}.run()": got},
                                   {"record": repr(rec), "step": steps})
                     if runs_seen[i]:
                         probes["rerun_of_seeded_handle"] += 1
-                        if runs_seen[i][0] != got:
+                        if typed(runs_seen[i][0]) != typed(got):
                             violation("NOT_REPRODUCIBLE", {"against": "own_earlier_run"},
                                       {f"{names[i]}.run() earlier": runs_seen[i][0]},
                                       {f"{names[i]}.run() now": got})
